@@ -1,11 +1,14 @@
 ---- MODULE Conf_HtmlQuote ----
-(* one case = {"s": input bytes, "q": bytes html_quote() returned} *)
+(* one TLC state = one batch {"b": [ {"s": input bytes, "q": bytes html_quote() returned}, ... ]} *)
 EXTENDS HtmlQuote, ConfLib
 Case == Cases[i]
+\* the recursive reference decoder for ordinary sizes, the positional one (MC_HtmlQuote: they agree) for long texts
+Dec(q) == IF Len(q) <= 400 THEN UnquoteRec(q, 1) ELSE Unquote(q)
+Wq(q) == IF Len(q) <= 400 THEN WellQuotedRec(q, 1) ELSE WellQuoted(q)
 \* P-layer: the statement of C32, nothing else
-POk(k) == WellQuoted(k.q) /\ Unquote(k.q) = k.s
+POk(k) == Wq(k.q) /\ Dec(k.q) = k.s
 \* I-layer: the escape table as it is today (skipped for very long strings: quadratic in TLC)
 IOk(k) == Len(k.s) > 2048 \/ k.q = Quote(k.s)
-CaseOk == i > 0 => POk(Case)
-ImplOk == i > 0 => IOk(Case)
+CaseOk == i > 0 => \A e \in 1..Len(Case.b) : POk(Case.b[e])
+ImplOk == i > 0 => \A e \in 1..Len(Case.b) : IOk(Case.b[e])
 ====
